@@ -1,12 +1,12 @@
 SPECIFICATION Spec
 CONSTANTS
   IPs = {"a", "b"}
-  Params <- MCParams
+  Params <- RPParams
   Steps = {25, 75}
   CleanEvery = 75
   IdleAge = 150
   MaxTime = 450
-  MaxReq = 5
+  MaxReq = 4
   EvictRegardless = FALSE
 INVARIANT TypeOK
 INVARIANT CleanupInvisible
